@@ -53,7 +53,7 @@ r10s, r10 = rstats([18])
 tail = tail.replace('@@R10_STATS@@', r10s if r10 else "not run")
 r10t = '/verif/tools/design_round10.md'
 tail = tail.replace('@@R10_TEXT@@', open(r10t).read().strip() if os.path.exists(r10t) else "")
-for rn, sfx in ((11, [19]), (12, [20]), (13, [21]), (14, [22])):
+for rn, sfx in ((11, [19]), (12, [20]), (13, [21]), (14, [22]), (15, [23])):
     rs_, rm_ = rstats(sfx)
     tail = tail.replace('@@R%d_STATS@@' % rn, rs_ if rm_ else "not run")
     rt_ = '/verif/tools/design_round%d.md' % rn
@@ -61,7 +61,7 @@ for rn, sfx in ((11, [19]), (12, [20]), (13, [21]), (14, [22])):
 r9t = '/verif/tools/design_round9.md'
 tail = tail.replace('@@R9_TEXT@@', open(r9t).read().strip() if os.path.exists(r9t) else "")
 nseeds = len(glob.glob('/verif/seeded/C*-*/'))
-tail = tail.replace('@@NSEEDS@@', str(nseeds)).replace('@@NROUNDS_TEXT@@', "sixteen per property in eight rounds - the C18 agent of round 8 delivered one - plus one per property in each of rounds 9 to 14 (no C17 change in round 10)" if r10 else "sixteen per property in eight rounds - the C18 agent of round 8 delivered one - plus one per property in a ninth" if r9 else "sixteen per property, in eight rounds; the C18 agent of round 8 delivered one")
+tail = tail.replace('@@NSEEDS@@', str(nseeds)).replace('@@NROUNDS_TEXT@@', "sixteen per property in eight rounds - the C18 agent of round 8 delivered one - plus one per property in each of rounds 9 to 15 (no C17 change in round 10)" if r10 else "sixteen per property in eight rounds - the C18 agent of round 8 delivered one - plus one per property in a ninth" if r9 else "sixteen per property, in eight rounds; the C18 agent of round 8 delivered one")
 notdet = [os.path.basename(dd.rstrip('/')) for dd in sorted(glob.glob('/verif/seeded/C*-*/')) if json.load(open(dd + 'meta.json')).get('expect_detected') is False]
 tail = tail.replace('@@NOT_EXPECTED@@', ", ".join(notdet))
 ndo = sum(1 for dd in glob.glob('/verif/seeded/C*-*/') if 'detecting_check' in json.load(open(dd + 'meta.json')))
